@@ -1,6 +1,7 @@
 import Amqp.Model.Wire
 import Amqp.Lemmas.Parse
 import Amqp.Gen.Skel
+import Amqp.Gen.Wire
 /-!
 # C01 — concurrent writers never corrupt or interleave frames on the wire
 
@@ -290,6 +291,10 @@ single buffer built by `write_frame`/`write_frames` (all frames marshalled *befo
 `acquire` = `_wr_lock.acquire()` before the loop; `send`/`stutter` = the loop body (`continue` on
 EAGAIN, `pass` on timeout, both with the lock still held); `release`/`fail` = `finally: release`.
 `Basic.publish` hands `[method, header] ++ bodies` to exactly one `write_frames`. -/
+
+/-- the model's `send t k` consumes exactly the k bytes the socket accepted and `stutter` (EAGAIN, time-out)
+    consumes nothing: the source counts the same way (regenerated) -/
+theorem byte_accounting : Gen.Wire.countsOnlyAcceptedBytes = true := by decide
 
 theorem skel_IO_write_to_socket : Gen.Skel.IO_write_to_socket =
   ["acq:_wr_lock", "try", "while", "do", "try", "if", "r:socket", "then", "raise:socket.error",
